@@ -344,7 +344,7 @@ func c12Run(ci any) (out Outcome) {
 	switch c.Path {
 	case "plugin_brokered":
 		before := listSockets(caseDir)
-		id = hostNextID(h)
+		id = freshBrokerID()
 		if _, err := h.DoT(Cmd{Op: "broker_accept", ID: id}, 20*time.Second); err != nil {
 			out.violate("broker_accept failed: %v", err)
 			return
@@ -361,7 +361,7 @@ func c12Run(ci any) (out Outcome) {
 		hostDir := os.TempDir()
 		before := listSockets(hostDir)
 		gh := h.(*grpcHandle)
-		id = gh.broker.NextId()
+		id = freshBrokerID()
 		hostImpl = &impl{tag: Tag{Pid: os.Getpid(), Broker: id, Side: "host", Proto: "grpc"}}
 		go gh.broker.AcceptAndServe(id, func(opts []grpc.ServerOption) *grpc.Server {
 			s := grpc.NewServer(opts...)
